@@ -1,8 +1,186 @@
-import Driver.Util
-/-! Line-protocol driver for C02 (not built yet). -/
+import Lean.Data.Json
+import GqlgenVerif.Model.Coerce
+import GqlgenVerif.Model.CoerceSpec
+/-! Line-protocol driver for C02 (input coercion).
+
+    schema <json>   the probe's input schema (universal.C02Schema) + "scalars" (GraphQL scalar ↦ binding) + "cfg"
+    shapes          the Go shape the model derives for every argument / input-struct field
+    case <json>     one operation (variable definitions, decoded variable values, field uses) → outcome
+    spec <json>     the same operation through the Spec (GraphQL input coercion written directly)
+    scalar <K> <json raw>   one scalar unmarshaler on one dynamic value
+-/
+open Lean GqlgenVerif GqlgenVerif.Coerce
 namespace Driver.C02
-def step (_line : String) : String := "bad-op"
+
+def str (j : Json) (k : String) : String := (j.getObjValAs? String k).toOption.getD ""
+def boolD (j : Json) (k : String) (d : Bool) : Bool := (j.getObjValAs? Bool k).toOption.getD d
+def arr (j : Json) (k : String) : List Json :=
+  match j.getObjVal? k with
+  | .ok (.arr a) => a.toList
+  | _ => []
+def obj? (j : Json) (k : String) : Option Json :=
+  match j.getObjVal? k with
+  | .ok v => if v.isNull then none else some v
+  | _ => none
+
+partial def ty (j : Json) : Ty :=
+  match obj? j "elem" with
+  | some e => .list (ty e) (boolD j "nn" false)
+  | none => .named (str j "name") (boolD j "nn" false)
+
+def intOf (s : String) : Int := s.toInt?.getD 0
+
+partial def lit (j : Json) : Lit :=
+  match str j "k" with
+  | "var" => .var (str j "s")
+  | "int" => .int (intOf (str j "t"))
+  | "float" => .float (str j "t")
+  | "str" => .str (str j "s")
+  | "bool" => .bool (boolD j "b" false)
+  | "enum" => .enum (str j "s")
+  | "list" => .list ((arr j "l").map lit)
+  | "obj" => .obj ((arr j "f").map fun kv => (str kv "n", match obj? kv "v" with | some v => lit v | none => .null))
+  | _ => .null
+
+partial def raw (j : Json) : Raw :=
+  match str j "k" with
+  | "bool" => .bool (boolD j "b" false)
+  | "int" => .int (intOf (str j "t"))
+  | "i64" => .i64 (intOf (str j "t"))
+  | "f64" => .f64 (str j "t")
+  | "num" => .num (str j "t")
+  | "str" => .str (str j "s")
+  | "list" => .list ((arr j "l").map raw)
+  | "obj" => .obj ((arr j "f").map fun kv => (str kv "n", match obj? kv "v" with | some v => raw v | none => .nil))
+  | _ => .nil
+
+def scalarK (s : String) : ScalarK :=
+  match s with
+  | "int" => .int | "int32" => .int32 | "int64" => .int64 | "uint" => .uint | "uint32" => .uint32
+  | "uint64" => .uint64 | "id" => .id | "intID" => .intID | "uintID" => .uintID | "string" => .string
+  | "float" => .float | "bool" => .bool | _ => .any
+
+def fieldDef (j : Json) : FieldDef :=
+  { name := str j "name", goName := str j "goName",
+    ty := match obj? j "type" with | some t => ty t | none => .named "?" false,
+    dflt := (obj? j "default").map lit, dir := boolD j "dir" false }
+
+def argDef (j : Json) : ArgDef :=
+  { name := str j "name", ty := match obj? j "type" with | some t => ty t | none => .named "?" false,
+    dflt := (obj? j "default").map lit, dir := boolD j "dir" false }
+
+structure St where
+  schema : Schema := { types := [] }
+  cfg : Cfg := {}
+  resolvers : List (String × List ArgDef) := []   -- "Obj.field" ↦ argument definitions
+  deriving Inhabited
+
+def loadSchema (j : Json) : St :=
+  let scalars := match obj? j "scalars" with | some s => s | none => Json.null
+  let types := (arr j "types").map fun t =>
+    let n := str t "name"
+    (n, match str t "kind" with
+      | "enum" => TypeDef.enum ((arr t "values").filterMap fun x => x.getStr?.toOption)
+      | "input" => TypeDef.input (boolD t "isMap" false) ((arr t "fields").map fieldDef)
+      | _ => TypeDef.scalar (scalarK (str scalars n)))
+  let cj := match obj? j "cfg" with | some c => c | none => Json.null
+  { schema := { types := types },
+    cfg := { omittable := boolD cj "omittable" false, retPtr := boolD cj "retPtr" false,
+             argDirNull := boolD cj "argDirNull" false, sfap := boolD cj "sfap" true, osep := boolD cj "osep" false },
+    resolvers := (arr j "fields").map fun f => (str f "obj" ++ "." ++ str f "name", (arr f "args").map argDef) }
+
+def shapesLine (st : St) : String :=
+  let args := st.resolvers.flatMap fun (k, defs) =>
+    defs.map fun d => k ++ "." ++ d.name ++ "=" ++ renderShape (shapeRef st.schema st.cfg d.ty)
+  let flds := st.schema.types.flatMap fun (n, td) =>
+    match td with
+    | .input false fields => fields.map fun fd =>
+        let sh := renderShape (shapeField st.schema st.cfg fd.ty)
+        n ++ "." ++ fd.name ++ "=" ++ (if fieldOmittable st.cfg fd.ty then "omit(" ++ sh ++ ")" else sh)
+    | _ => []
+  ";".intercalate (args ++ flds)
+
+def pathStr (p : Path) : String := "/".intercalate p
+
+def stepStr (p : Path) (s : Step) : String :=
+  match s with
+  | .call args => pathStr p ++ "\x1fcall\x1f" ++ ", ".intercalate (args.map render)
+  | .error ep cls => pathStr p ++ "\x1ferror\x1f" ++ pathStr ep ++ "\x1f" ++ cls
+
+def outcomeStr (o : Outcome) : String :=
+  match o with
+  | .gateValidation => "gate\tvalidation"
+  | .gateVar p m => "gate\tvar\t" ++ pathStr p ++ "\t" ++ m
+  | .gatePanic w => "gate\tpanic\t" ++ w
+  | .ran steps => "ran\t" ++ "\t".intercalate (steps.map fun (p, s) => stepStr p s)
+
+def parseCase (st : St) (j : Json) : List VarDef × List (String × Raw) × List FieldUse :=
+  let vars := (arr j "vars").map fun v =>
+    ({ name := str v "name", ty := match obj? v "type" with | some t => ty t | none => .named "?" false,
+       dflt := (obj? v "default").map lit } : VarDef)
+  let values := (arr j "values").map fun kv => (str kv "n", match obj? kv "v" with | some v => raw v | none => Raw.nil)
+  let fields := (arr j "fields").map fun f =>
+    ({ path := (str f "path").splitOn "/",
+       defs := (lookup st.resolvers (str f "obj" ++ "." ++ str f "field")).getD [],
+       given := (arr f "args").map fun kv => (str kv "n", match obj? kv "v" with | some v => lit v | none => Lit.null) } : FieldUse)
+  (vars, values, fields)
+
+def devs (s : String) : Spec.Devs :=
+  if s = "all" then Spec.Devs.all else
+  let l := s.splitOn ","
+  { absentVarNull := l.contains "absentVarNull", literalInt64 := l.contains "literalInt64",
+    mapList := l.contains "mapList", idFloat6 := l.contains "idFloat6",
+    nestedNullPanic := l.contains "nestedNullPanic", lenientScalars := l.contains "lenientScalars" }
+
+def step (st : St) (line : String) : St × String :=
+  let (op, rest) := match line.splitOn " " with
+    | [] => ("", "")
+    | o :: r => (o, " ".intercalate r)
+  match op with
+  | "schema" =>
+    (match Json.parse rest with
+     | .ok j => (loadSchema j, "ok")
+     | .error e => (st, "bad-json " ++ e))
+  | "shapes" => (st, shapesLine st)
+  | "case" =>
+    (match Json.parse rest with
+     | .ok j =>
+       let (vars, values, fields) := parseCase st j
+       (st, outcomeStr (runOp st.schema st.cfg vars values fields))
+     | .error e => (st, "bad-json " ++ e))
+  | "spec" =>
+    -- spec <devs> <json>: devs = comma-separated deviation switches, "-" = none (the specification), "all"
+    (match rest.splitOn " " with
+     | d :: r =>
+       (match Json.parse (" ".intercalate r) with
+        | .ok j =>
+          let (vars, values, fields) := parseCase st j
+          (st, Spec.outcomeStr (Spec.runOp (devs d) st.schema st.cfg vars values fields))
+        | .error e => (st, "bad-json " ++ e))
+     | _ => (st, "bad-op"))
+  | "scalar" =>
+    (match rest.splitOn " " with
+     | k :: r =>
+       (match Json.parse (" ".intercalate r) with
+        | .ok j =>
+          (st, match scalar (scalarK k) (raw j) [] with
+            | .ok g => "ok " ++ render g
+            | .error (.err _ cls) => "err " ++ cls
+            | .error (.panic w) => "panic " ++ w
+            | .error .fuel => "fuel")
+        | .error e => (st, "bad-json " ++ e))
+     | _ => (st, "bad-op"))
+  | _ => (st, "bad-op")
+
+partial def loop (h : IO.FS.Stream) (out : IO.FS.Stream) (st : St) : IO Unit := do
+  let line ← h.getLine
+  if line.isEmpty then return ()
+  let l := if line.back == '\n' then line.dropRight 1 else line
+  let (st', o) := step st l
+  out.putStrLn o
+  loop h out st'
+
 end Driver.C02
 
 def main : IO Unit := do
-  Driver.loop (← IO.getStdin) (← IO.getStdout) Driver.C02.step
+  Driver.C02.loop (← IO.getStdin) (← IO.getStdout) {}
